@@ -46,28 +46,33 @@ TYPE_DECLS = {
     "Iface": "type Iface interface {\n\tDo() error\n}",
     "MyErr": "type MyErr struct {\n\terror\n\tCode int\n}",
     "NotErr": "type NotErr struct {\n\tMsg string\n}",
+    "SelfErr": "type SelfErr struct {\n\t*SelfErr\n\terror\n\tCode int\n}",
+    "DeepErr": "type DeepErr struct {\n\tMyErr\n\tMore string\n}",
+    "Mono": "type Mono[T any] struct {\n\tV T\n\tL []T\n}",
     "Tagged": None,  # built with a random validator tag
 }
-DEPS = {"MutA": ["MutB"], "MutB": ["MutA"], "Emb": ["Plain", "SelfRec", "lower"], "Deep": ["Plain"],
+DEPS = {"DeepErr": ["MyErr"], "MutA": ["MutB"], "MutB": ["MutA"], "Emb": ["Plain", "SelfRec", "lower"], "Deep": ["Plain"],
         "AliasA": ["AliasB"], "NamedSlice": ["Plain"]}
 
-HOSTILE_TAGS = ["min=abc", "max=", "len=-1", "oneof=", "gt=", "lte=1e400", "uniqueItems=maybe", "enum=|", ",,,",
+HOSTILE_TAGS = ["oneof=fixed 'wont fix", "oneof='a b' c", "oneof='", "oneof=''", "enum='", "min=abc", "max=", "len=-1", "oneof=", "gt=", "lte=1e400", "uniqueItems=maybe", "enum=|", ",,,",
                 "required,,min", "max=99999999999999999999999", "minItems=x", "maxItems=-3", "pattern=(", "len=1.5",
                 "oneof=a b c", "gte=0,lte=10", "email", "dive,required", "min=\\", "required,min=1,max=0"]
 
-BODY_TYPES = ["Plain", "Box[int]", "Pair[string, Plain]", "Inline", "WithFunc", "WithChan", "WithIface", "WithArray",
+BODY_TYPES = ["Mono[Plain]", "Mono[[]int]", "Mono[Mono[int]]", "Mono[*Plain]", "Mono[map[string]Plain]", "Plain", "Box[int]", "Pair[string, Plain]", "Inline", "WithFunc", "WithChan", "WithIface", "WithArray",
               "MutA", "SelfRec", "Deep", "Emb", "NamedSlice", "NamedMap", "[]Plain", "*Plain", "map[string]Plain",
               "[]*[]Plain", "Iface", "Tagged", "[4]Plain", "map[int]Plain", "any", "struct{ X int }", "FuncType",
               "[]byte", "time.Time", "time.Duration", "*time.Time"]
 SCALAR_TYPES = ["string", "int", "Color", "Level", "Ratio", "Flag", "EmptyEnum", "AliasA", "Named", "[]string", "[]Color",
                 "*int", "uint8", "float32", "complex128", "rune", "byte", "uintptr", "[]int", "*Color", "[2]string",
                 "time.Time", "Plain", "any", "error", "map[string]string", "**string", "[]*int"]
-RET_TYPES = ["", "Plain", "*Plain", "[]Plain", "Box[string]", "MutA", "SelfRec", "map[string]Plain", "Color", "[]Color",
+RET_TYPES = ["Mono[Plain]", "Mono[Color]", "Box[Plain]", "", "Plain", "*Plain", "[]Plain", "Box[string]", "MutA", "SelfRec", "map[string]Plain", "Color", "[]Color",
              "string", "int", "any", "Iface", "Emb", "Deep", "NamedSlice", "*[]Plain", "[]byte", "time.Time", "Tagged",
              "Inline", "WithIface", "chan int", "func()", "[3]int", "struct{ A int }"]
-ERR_TYPES = ["error", "error", "error", "MyErr", "*MyErr", "NotErr", "Plain"]
+ERR_TYPES = ["error", "error", "error", "MyErr", "*MyErr", "NotErr", "Plain", "SelfErr", "DeepErr"]
 
 MALFORMED_ANN = [
+    "// @Security(sec1, {scopes: [null]})", "// @Security(sec1, {scopes: [[\"a\"]]})", "// @Security(sec1, {scopes: {}})",
+    "// @Query(q, {name: [\"a\"]})", "// @Query(q, {validate: null})", "// @ErrorResponse(400, {x: [null]}) d",
     "// @Method(GET", "// @Route(/a, {x:})", "// @Query(a, {name: 5})", "// @Security(, {scopes: \"x\"})",
     "// @Response(abc)", "// @ErrorResponse(99999999999999999999)", "// @Method()", "// @Path(id, {name:\"{\"})",
     "// @Query(q, {validate: [1,2]})", "// @Security(sec1, {scopes: \"notalist\"})", "// @Security(sec1, {scopes: [1, 2]})",
@@ -148,7 +153,12 @@ def hostile_file(rng, k):
             sig, body = " (%s, %s)" % (ret, err), "\tpanic(\"x\")"
         else:
             sig, body = " %s" % err, "\tpanic(\"x\")"
-        lines = ["// Method %d" % i, "// @Method(%s)" % verb, "// @Route(%s)" % route] + anns
+        head = rng.choice([["// Method %d" % i], ["//", "// Method %d" % i], ["//"], ["//", "//"], [],
+                           ["// Method %d" % i, "//"], ["//   "], ["// Method %d" % i, "//", "// more text"]]) \
+            if (not mild or rng.random() < 0.3) else ["// Method %d" % i]
+        lines = head + ["// @Method(%s)" % verb, "// @Route(%s)" % route] + anns
+        if rng.random() < 0.1:
+            lines.append("//")
         if rng.random() < (0.35 if not mild else 0.0) or (mild and budget[0] > 0 and rng.random() < 0.15):
             budget[0] -= 1
             pos = rng.randrange(len(lines) + 1)
@@ -255,6 +265,71 @@ def sweep_projects(rng, start, tier):
     return out
 
 
+def single_use_file(k, role, t):
+    """A well-formed project with ONE hostile element: type t used as body / result / error type."""
+    used = set()
+    for name in TYPE_DECLS:
+        if re.search(r"\b%s\b" % re.escape(name), t):
+            used.add(name)
+    todo, seen = list(used), set()
+    while todo:
+        n = todo.pop()
+        if n in seen:
+            continue
+        seen.add(n)
+        todo += DEPS.get(n, [])
+    decls = []
+    for n in sorted(seen):
+        if n == "Tagged":
+            decls.append("type Tagged struct {\n\tS string `json:\"s\" validate:\"required\"`\n}")
+        else:
+            decls.append(TYPE_DECLS[n])
+    if role == "body":
+        sig, ann, verb = "(b %s) error" % t, "// @Body(b)\n", "POST"
+    elif role == "ret":
+        sig, ann, verb = "() (%s, error)" % t, "", "GET"
+    else:
+        sig, ann, verb = "() (string, %s)" % t, "", "GET"
+    src = ("// @Tag(U%d)\n// @Route(/u%d)\ntype HCtl%d struct {\n\truntime.GleeceController\n}\n\n%s\n\n"
+           "// One\n// @Method(%s)\n// @Route(/one)\n%sfunc (c *HCtl%d) One%s {\n\tpanic(\"x\")\n}\n"
+           % (k, k, k, "\n\n".join(decls), verb, ann, k, sig))
+    imports = ['"github.com/gopher-fleece/runtime"']
+    if re.search(r"(?<![A-Za-z])time\.", src):
+        imports.append('"time"')
+    return "package hctl\n\nimport (\n%s\n)\n\n%s" % ("\n".join("\t" + i for i in imports), src)
+
+
+def annotation_sweep_projects(rng, start, tier):
+    """Every malformed annotation line once, alone, on an otherwise well-formed route (and on the controller)."""
+    out = []
+    lines = list(MALFORMED_ANN)
+    for i, ann in enumerate(lines):
+        k = start + len(out)
+        on_ctrl = (i % 5 == 4)
+        src = ("package hctl\n\nimport (\n\t\"github.com/gopher-fleece/runtime\"\n)\n\n// @Tag(A%d)\n// @Route(/a%d)\n%s"
+               "type HCtl%d struct {\n\truntime.GleeceController\n}\n\n// One\n// @Method(GET)\n// @Route(/one/{id})\n"
+               "// @Path(id)\n// @Query(q)\n%sfunc (c *HCtl%d) One(id string, q int) (string, error) {\n\tpanic(\"x\")\n}\n"
+               % (k, k, (ann + "\n") if on_ctrl else "", k, "" if on_ctrl else (ann + "\n"), k))
+        out.append({"source": src, "k": k, "config_kind": "valid", "single_annotation": ann,
+                    "command": ["generate", "spec-and-routes"], "force_valid_config": True})
+    return out
+
+
+def type_sweep_projects(rng, start, tier):
+    """Every hostile type once as body, result and error type, each alone in a well-formed project."""
+    uses = [("err", t) for t in sorted(set(ERR_TYPES))] + \
+           [(r, t) for r, pool in (("body", BODY_TYPES), ("ret", RET_TYPES)) for t in pool if t and "Mono" in t]
+    rest = [("body", t) for t in BODY_TYPES if "Mono" not in t] + [("ret", t) for t in RET_TYPES if t and "Mono" not in t]
+    rng.shuffle(rest)
+    uses += rest if tier != "quick" else rest[:12]
+    out = []
+    for role, t in uses:
+        k = start + len(out)
+        out.append({"source": single_use_file(k, role, t), "k": k, "config_kind": "valid", "single_use": [role, t],
+                    "command": ["generate", "spec-and-routes"], "force_valid_config": True})
+    return out
+
+
 COMMANDS = [["generate", "spec-and-routes"], ["generate", "spec"], ["generate", "routes"],
             ["dump", "graph", "-f", "dot"], ["dump", "graph", "-f", "plain"]]
 
@@ -293,6 +368,8 @@ def main():
         for k in range(nproj):
             projects.append({"source": hostile_file(rng, k), "k": k})
         projects += sweep_projects(rng, len(projects), a.tier)
+        projects += type_sweep_projects(rng, len(projects), a.tier)
+        projects += annotation_sweep_projects(rng, len(projects), a.tier)
     base = {
         "commonConfig": {"controllerGlobs": ["./hctl/*.go"]},
         "routesConfig": {"engine": "gin", "outputPath": "./dist/routes.go", "outputFilePerms": "0644", "packageName": "routes",
